@@ -5,6 +5,7 @@ import MosnVerif.Lemmas.H2GoAway
 import MosnVerif.Lemmas.ShutdownVirtual
 import MosnVerif.Lemmas.TransferLookup
 import MosnVerif.Lemmas.UpgTiming
+import MosnVerif.Lemmas.UpgHandshake
 import MosnVerif.Lemmas.HandoverQueue
 /-!
 # C11 — graceful shutdown and hot upgrade lose no requests (property theorems only; level `other`)
@@ -516,5 +517,53 @@ example : (run .dropWhenFull 8 { pending := List.range 9 } (harnessWindow 9 ++ h
     ∧ (run .dropWhenFull 8 { pending := List.range 9 } (harnessWindow 9 ++ harnessRest 9)).forwarded = List.range 8 := by decide
 
 end HandoverQueueProps
+
+/-! ## hot upgrade: the hand-shake never leaves a listener without an acceptor -/
+section UpgHandshakeProps
+open MosnVerif.Model.UpgHandshake MosnVerif.Gen.UpgHandshake
+
+/-- **upgrade_always_one_acceptor**: with the old process's step order regenerated from `ReconfigureHandler` and the
+new process's ack deadline / give-up rule from `transferConnectionHandler`: for EVERY drain time (unbounded), EVERY set
+of requests in flight (their remaining durations), every instant `tReady` at which the new process reports ready, every
+length of `WaitConnectionsDone` and EVERY instant `t`, the old or the new process accepts on the shared listeners. -/
+theorem upgrade_always_one_acceptor (tReady drainTime wd : Nat) (inflight : List Nat) (t : Nat) :
+    oldAccepts (upgrade tReady drainTime inflight wd) t = true ∨
+      newAccepts (upgrade tReady drainTime inflight wd) tReady t = true := by
+  unfold upgrade
+  rw [upgrade_eq]
+  by_cases h : tReady ≤ readyDeadlineMs
+  · simp only [h, if_true, oldAccepts, newAccepts, gaveUpAt, newGivesUpWithoutAck, newAcceptsBeforeReady, ackDeadlineMs]
+    by_cases ht : t < tReady + 3000
+    · left; simp [ht]
+    · right; simp; omega
+  · left; simp [h, oldAccepts]
+
+/-- **new_never_gives_up**: when the old process is healthy (the ready byte arrives within its read deadline) the new
+process gets its ack in time, whatever the drain takes -/
+theorem new_never_gives_up (tReady drainTime wd : Nat) (inflight : List Nat) (h : tReady ≤ readyDeadlineMs) :
+    gaveUpAt (upgrade tReady drainTime inflight wd) tReady = none := by
+  unfold upgrade
+  rw [upgrade_eq]
+  simp [h, gaveUpAt, ackDeadlineMs]
+
+/-- the ack is written before `stopAccept`, and the old process exits only after the drain and `WaitConnectionsDone` -/
+theorem ack_before_stop_accept (tReady drainTime wd : Nat) (inflight : List Nat) (h : tReady ≤ readyDeadlineMs) :
+    ∃ a s e, (upgrade tReady drainTime inflight wd).ackAt = some a ∧ (upgrade tReady drainTime inflight wd).stopAt = some s ∧
+      (upgrade tReady drainTime inflight wd).exitAt = some e ∧ a ≤ s ∧ s + shutdownDur drainTime inflight + wd ≤ e := by
+  unfold upgrade
+  rw [upgrade_eq]
+  simp [h]
+
+example : (200 : Nat) ≤ readyDeadlineMs := by decide
+example : (upgrade 200 15000 [20000, 40] 60000).stopAt = some 3200 ∧ (upgrade 200 15000 [20000, 40] 60000).exitAt = some 78200 := by decide
+
+/-- negation witness (shutdown before the ack, drain longer than the ack deadline): the new process gives up while the
+old one is already deaf — at that instant nobody accepts -/
+example :
+    let o := runOld [.sendListeners, .readReady, .stopService, .shutdown, .writeAck, .sleep 3000, .waitDone, .exit]
+      100 (shutdownDur 5000 [20000]) 60000
+    gaveUpAt o 100 = some 3100 ∧ oldAccepts o 3100 = false ∧ newAccepts o 100 3100 = false := by decide
+
+end UpgHandshakeProps
 
 end MosnVerif.Props.C11
